@@ -52,9 +52,8 @@ pub struct Expected {
     pub aux_share_defined: BTreeMap<i32, bool>,
     /// ids at which some step has AUX > 0 and zero total output (property does not fix the split there)
     pub aux_zero_out_steps: BTreeMap<i32, Vec<usize>>,
-    /// ids with auxiliaries whose CONSUMO lines also name NEPB / COGEN: the property text does not
-    /// say whether those count as "services served"; no AUX components are predicted for them and
-    /// monitors only require conservation there
+    /// (kept for the monitors' interface; always empty since defect F16 was repaired: only EPB services
+    /// count as "services served", so systems whose CONSUMO lines also name NEPB / COGEN are decided)
     pub aux_ambiguous: Vec<i32>,
 }
 
@@ -123,18 +122,15 @@ pub fn expected(spec: &Spec) -> Result<Expected, Reject> {
     }
     // 3. auxiliaries: all of it, once, on the EPB services of its own system
     for (id, w) in e.aux_decl.clone() {
-        // services the system consumes for (as declared by its CONSUMO lines)
+        // EPB services the system consumes for (as declared by its CONSUMO lines); non-EPB and
+        // cogeneration-input lines do not make a system "serve" anything: auxiliaries are EPB use
         let mut srvs: Vec<String> = vec![];
         for l in &spec.lines {
             if let Line::Used { id: lid, srv, .. } = l {
-                if *lid == id && !srvs.contains(srv) {
+                if *lid == id && EPB.contains(&srv.as_str()) && !srvs.contains(srv) {
                     srvs.push(srv.clone());
                 }
             }
-        }
-        if srvs.iter().any(|s| s == "NEPB" || s == "COGEN") {
-            e.aux_ambiguous.push(id);
-            continue;
         }
         if srvs.len() == 1 {
             e.comps.push(RComp { id, kind: Kind::Aux { srv: srvs[0].clone() }, v: w.clone(), generated: false });
